@@ -490,6 +490,14 @@ def run(rep: Report, tier: str) -> None:
     sub = Report("C07", tier)
     c07.run(sub, tier)
     rep.absorb(sub, rh, ("C07.a", "C07.b", "C07.c", "C07.d"), "balance replay")
+    # the two summary tables print yearly_gain_loss_list: its own obligations (sums per key over every fraction up to the to-date, cut on the event's own
+    # date, no order-sensitive grouping) are C06's; restated because the tables are only as right as the list
+    from . import c06
+
+    rk = rep.rule("C13.k", "the yearly lines shown are the sums of the fractions shown (C06.b, C06.c, C06.d, C06.g restated)", floor=10)
+    sub6 = Report("C06", tier)
+    c06.run(sub6, tier)
+    rep.absorb(sub6, rk, ("C06.b", "C06.c", "C06.d", "C06.g"), "yearly lines")
     # numbers inside link formulas are the computed values, unformatted
     rg = rep.rule("C13.g", "hyperlinked numeric cells carry the computed value unformatted inside the formula", floor=4, follows_calls=True)
     saved = set(norm.opaque_funcs)
